@@ -106,6 +106,12 @@ CHECKS = {
         technique=SYMEX,
         ref="4 C10",
     ),
+    "C15": dict(
+        text="Bounded: (pure) for 54 rules (module rules of all shapes, anything aliases, batches, regex subject; 13 layer rules incl. a regex layer; 2 diagram rules) on every import relation over a 4-module tree and a second 3-module architecture with fresh variables: the architecture object graph is unchanged by assert_applies, re-applying the same rule object gives the same outcome and raw message, and on the second architecture the used object gives what a fresh one gives. (history) every history of 3 evaluations over pools of 4-5 rule objects on one shared evaluable (n-ary symbolic choices): the last outcome equals a fresh evaluation. (order) all permutations of 2-3 subjects / objects / layer definitions / object layers: equal outcome and raw message text (one z3 query per pair of permutations over two summaries). (scan) two scans of a symbolic 8-path tree under independent symbolic iterdir permutations and permuted exclusion tuples: equal modules, imports, hierarchy. (ndset) set-iteration order made nondeterministic in every pytestarch module by an AST-rewriting import hook in a dedicated interpreter: verdict and message independent of the order variables. All decided by z3 queries 'exists inputs: mismatch / difference' over decision-tree summaries of the real code.",
+        note="Trusted: SymDiGraph / SymFS stubs (validated by replay), z3. Purity => independence of any history length is the stated inductive argument (machine-checked at length 3). Real PYTHONHASHSEED values and real os.scandir order are modelled by symbolic permutations (sets / directories of <= 3-4 entries), not executed; sets inside networkx and the standard library are not rewritten.",
+        technique=SYMEX,
+        ref="4 C15",
+    ),
 }
 
 NOT_YET = {}
